@@ -297,15 +297,17 @@ def run_same_key_sequences(ctx: Ctx, apiv: tuple[int, int], methods: list[str], 
                 for subset, vc in plan:
                     supplied = {a: opt[a][vc] for a in subset}
                     exp = expected_request(method, key, supplied, required, apiv)
-                    n0 = len(s.dev.conn.received)
-                    if method == "media_player_command":
-                        s.cli.media_player_command(key, **supplied)
-                    elif required:
-                        getattr(s.cli, method)(key, *required.values(), **supplied)
-                    else:
-                        getattr(s.cli, method)(key, **supplied)
-                    judge(ctx, s, n0, method, exp, supplied, required, "same-key-" + ("falsy", "typical", "extreme")[vc], apiv, framing)
-                    res.count("calls/same-key-sequence")
+                    # every step twice in a row: the identical command issued again is sent again (a user pressing the button twice)
+                    for again in (False, True):
+                        n0 = len(s.dev.conn.received)
+                        if method == "media_player_command":
+                            s.cli.media_player_command(key, **supplied)
+                        elif required:
+                            getattr(s.cli, method)(key, *required.values(), **supplied)
+                        else:
+                            getattr(s.cli, method)(key, **supplied)
+                        judge(ctx, s, n0, method, exp, supplied, required, "same-key-" + ("falsy", "typical", "extreme")[vc] + ("-repeated" if again else ""), apiv, framing)
+                        res.count("calls/same-key-sequence" + ("/identical-call-repeated" if again else ""))
         if sim.harness_errors:
             res.inconclusive.append("harness: " + sim.harness_errors[0][-300:])
 
